@@ -271,6 +271,14 @@ def c022(ctx):
         ctx.order_chain(R, f, [("BufWriter::flush", fl), ("File::sync_all", sy), ("Sst::new", nw)])
         ctx.must_pass(R, f, "File::sync_all", sy)
         ctx.must_pass(R, f, "BufWriter::flush", fl)
+        # the sync is the last thing that touches the file: everything written -- the final block too -- is written before it
+        wr = P.call_points(f, r"StackPacker.*::stream$|::flush_block$|std::io::Write::(write|write_all)$|as std::io::Write>::(write|write_all|flush)$")
+        ctx.floor(R, "seal: writes to the output", len(wr), 3)
+        for pt in sy:
+            q = P.reach(f, P.after(f, pt), wr)
+            ctx.check(R, f, "nothing-written-after-sync", q is None, "no write to the table follows sync_all",
+                      "seal writes to the table after sync_all: those bytes (the final block) are still dirty pages when the table is linked into sst/, "
+                      "recorded in the manifest and its log retired -- a power loss then leaves a listed table that cannot be parsed", pt=pt, path=q)
         # the sync must be applied to the builder's own file
         for pt in sy:
             for g_, q in ctx.direct_sites(f, pt):
